@@ -268,8 +268,10 @@ class Host(object):
         """Trace invariant + model update for one target of one invocation."""
         res = self.res
         verdict, files = self.expect_save(path, want, append, new_files)
+        why = "append does not apply" if append else "no --append was given"
         if read_fault:
             verdict, files = "must_refuse", None
+            why = "the save had to fail (injected read error on the target, or a name that cannot be stored)"
         existed = before is not None
         after = self.w.get(path)
         events = r.wrote(path)
@@ -281,7 +283,7 @@ class Host(object):
                 if wrote or opened_w:
                     res.violate("TARGET-MODIFIED:%s%s" % (want, "+append" if append else ""),
                                 "%s existed as %s and %s, yet the invocation touched it: %r" % (
-                                    path, (self.model.get(path) or {}).get("kind"), "append does not apply" if append else "no --append was given",
+                                    path, (self.model.get(path) or {}).get("kind"), why,
                                     [e[1:4] for e in events][:3] or "opened for writing"), k)
                 elif existed and not (r.stdout.strip() or r.stderr.strip()):
                     res.violate("REFUSED-SILENTLY", "%s left alone but nothing was printed" % path, k)
@@ -406,6 +408,9 @@ class Host(object):
                 res.violate("DIAG-WROTE", "rejected program yet files were touched: %r" % (r.wrote()[:2],), k)
             return r, ref
         name = ref["name"] or op.get("name")
+        unstorable = bool(name) and any(ord(c) > 0xFF for c in name)
+        if unstorable:
+            res.stats["fault:unstorable_name"] += 1
         new_file = None
         if name:
             new_file = {"name": name, "ext": "BIN", "ftype": 2, "dtype": 0, "load": ref["origin"], "exec": ref["origin"],
@@ -437,8 +442,10 @@ class Host(object):
                 else:
                     res.stats["probe:no_name_no_container_file"] += 1
                 continue
-            exec_ok = None
-            wrote = self.judge_save(r, path, kind, op.get("append"), [new_file], before[path], k, read_fault=(fault_path == path))
+            # a name with a character that does not fit in a byte cannot be stored: like a read error on the target, the
+            # save has to fail and leave the host file exactly as it was
+            wrote = self.judge_save(r, path, kind, op.get("append"), [new_file], before[path], k,
+                                    read_fault=(fault_path == path) or unstorable)
             if wrote and "content" in self.oracles:
                 self.check_c11(path, kind, new_file, ref, lines, k)
         return r, ref
